@@ -122,6 +122,13 @@ func checkC16(p *Prog, r *Report) {
 			enc = c
 		}
 	})
+	/* Or done in place, byte by byte: for i, c := range enc { if c == X {
+	enc[i] = Y } }. */
+	if 0 == len(goPairs) {
+		for _, pr := range inPlaceBytePairs(fp) {
+			goPairs = append(goPairs, pair{string(rune(pr[0])), string(rune(pr[1]))})
+		}
+	}
 	m := regexp.MustCompile(`y/([^/]*)/([^/]*)/([a-z]*)`).FindStringSubmatch(tmplText)
 	if nil == m {
 		rTab.Bad("perlTemplate:y///", tpos, "no y/…/…/ transliteration in the wrapper: the substituted characters are never restored")
@@ -1074,4 +1081,67 @@ func isCommentCount(lines, bound ssa.Value) bool {
 		}
 	})
 	return okNoStore
+}
+
+// inPlaceBytePairs: element stores S[i] = constant which happen exactly when
+// the element read at the same index of the same slice equals another
+// constant, in a loop which visits every index.  Returns the (from, to) pairs;
+// nil if any element store of such a slice has another form.
+func inPlaceBytePairs(fn *ssa.Function) [][2]int64 {
+	var out [][2]int64
+	ok := true
+	eachInstr(fn, func(i ssa.Instruction) {
+		st, isSt := i.(*ssa.Store)
+		if !isSt {
+			return
+		}
+		ia, isIA := st.Addr.(*ssa.IndexAddr)
+		if !isIA || !isByteSlice(ia.X.Type()) {
+			return
+		}
+		to, isC := constInt(st.Val)
+		if !isC {
+			return /* not a substitution (an encoder writing its output, …) */
+		}
+		if !rangesOverAll(ia.Index, ia.X, -1) {
+			ok = false
+			return
+		}
+		/* The guard: load(S[i]) == from, true edge dominating the store. */
+		found := false
+		for _, b := range fn.Blocks {
+			ifi := blockIf(b)
+			if nil == ifi {
+				continue
+			}
+			dc := decodeCond(ifi.Cond)
+			from, isFrom := int64(0), false
+			if nil != dc.Y {
+				from, isFrom = constInt(dc.Y)
+			}
+			ld, isLd := dc.X.(*ssa.UnOp)
+			if !isFrom || !isLd || token.MUL != ld.Op {
+				continue
+			}
+			lia, isLIA := ld.X.(*ssa.IndexAddr)
+			if !isLIA || lia.X != ia.X || lia.Index != ia.Index {
+				continue
+			}
+			k := 1
+			if dc.Eq {
+				k = 0
+			}
+			if edgeDominates(ifi, k, st) {
+				out = append(out, [2]int64{from, to})
+				found = true
+			}
+		}
+		if !found {
+			ok = false
+		}
+	})
+	if !ok {
+		return nil
+	}
+	return out
 }
